@@ -3,7 +3,7 @@
 import ast
 import re as re_
 
-from .. import dtypes, dunder_sub, polarity, proto, roles
+from .. import blocks, dtypes, dunder_sub, polarity, proto, roles
 from ..core import AnalysisError
 from ..proto import NC, NCEval
 from ..src import arg_names, calls_in, unparse
@@ -451,6 +451,8 @@ def run(ctx):
     dunder_algebra(ctx)
     dunder_sub.subclass_dunders(ctx)
     dunder_sub.blocked_to_dense(ctx)
+    blocks.block_bookkeeping(ctx)
+    blocks.packing_offsets(ctx)
 
 
 def combinator_shapes(ctx):
